@@ -485,6 +485,7 @@ class Axis:
         self.syms: set = set()
         self.tag = sp.Symbol("ax_" + name)  # identifies the axis inside Sigma terms
         Axis.REG[self.tag] = self
+        Axis.REG[self.n] = self  # a bare length term n_<axis> (e.g. an element unpacked from x.shape) identifies its axis
 
     def sym(self, name, **assump) -> "A":
         """a per-event input array: generic element = fresh symbol `name`"""
@@ -716,8 +717,18 @@ class A:
         axes = _align(self.axes, oax)
         if od is not None and not (set(oax) - {ONE}):
             od = None  # pure broadcast operand
-        if od is not None and not (set(self.axes) - {ONE}):
+        sa, so = set(self.axes) - {ONE}, set(oax) - {ONE}
+        if od is not None and not sa:
             dom = od
+        elif od is not None and sa and so and not (sa & so) and (od is sp.true or self.dom is sp.true):
+            # operands over different axes (outer-product broadcasting): the mask of the one that is masked carries over,
+            # provided its axis stays the leading one (the domain predicate describes the leading axis)
+            masked_axes = self.axes if od is sp.true else oax
+            lead = [a for a in masked_axes if a is not ONE][0]
+            if (od is sp.true and self.dom is sp.true) or axes[0] is lead:
+                dom = self.dom if od is sp.true else od
+            else:
+                raise Unsupported("mask on a non-leading axis after broadcasting")
         else:
             dom = self._dom(od, what)
         a, b = (oe, self.e) if swap else (self.e, oe)
@@ -915,6 +926,8 @@ class A:
             return
         if isinstance(idx, S) and idx.isbool():
             idx = A((), idx.e)
+        if isinstance(idx, tuple) and idx and isinstance(idx[0], A) and idx[0].isbool() and all(q is Ellipsis or (isinstance(q, slice) and q == slice(None)) for q in idx[1:]):
+            idx = idx[0]  # x[mask, :] = v / x[mask, ...] = v : rows selected by a mask on the leading axis, every other axis in full
         if not isinstance(idx, A) or not idx.isbool():
             raise Unsupported("store through index %r" % (idx,))
         if idx.axes and (idx.ndim != 1 or idx.axes[0] is not self.axes[0]):
